@@ -331,7 +331,11 @@ def finish(ctx, rep, lean, level_note_axioms=True):
         wall_s=round(time.time() - ctx.t0, 2),
         violations=violations,
     )
-    if not getattr(ctx, "is_replay", False):     # a replay explores one input: it must not replace the run's evidence
+    if os.path.abspath(REPO) != "/repo":
+        # a run against a scratch tree (mutation testing): evidence/ only ever describes /repo itself
+        with open(os.path.join("/tmp", f"evidence_{prop}_{os.path.basename(os.path.abspath(REPO))}.json"), "w") as f:
+            json.dump(ev, f, indent=1, default=str)
+    elif not getattr(ctx, "is_replay", False):     # a replay explores one input: it must not replace the run's evidence
         os.makedirs(os.path.join(VERIF, "evidence"), exist_ok=True)
         with open(os.path.join(VERIF, "evidence", f"{prop}.json"), "w") as f:
             json.dump(ev, f, indent=1, default=str)
